@@ -140,4 +140,35 @@ theorem valErr_ctorTail_writes_nothing (p : Program) (fn : Fn) (hmem : fn ∈ p.
     · rw [hcf.2.1]; simp only [ctorCommit]; exact haf.2.1
     · rw [hcf.1]; simp only [ctorCommit]; exact haf.1
     · simp only [ctorOutcome]; split <;> exact ⟨_, rfl⟩
+
+/-- likewise a decorator whose function has a value-typed error result always fails, is never marked as called and
+    writes no decorated value -/
+theorem valErr_decoTail_writes_nothing (p : Program) (fn : Fn) (hmem : fn ∈ p.fns)
+    (huniq : ∀ g ∈ p.fns, g.id = fn.id → g = fn) (hv : (forcedOf p.types fn).isSome = true) (hnd : p.cfg.dry = false)
+    (d : Nat) (node : DecoNode) (hfn : node.fn = fn) (args : List Val) (st : St) :
+    (decoTail p.ctx d node args st).2.decos = st.decos ∧ (decoTail p.ctx d node args st).2.scopes = st.scopes ∧
+    ∃ e, (decoTail p.ctx d node args st).1 = .error e := by
+  have hnd' : p.ctx.cfg.dry = false := hnd
+  have hno := (valErr_never_ok p fn hmem huniq hv st).1
+  unfold decoTail
+  simp only
+  rw [callBody_spec p.ctx hnd', hfn]
+  have hcf := runCallback_fields node.cb (.deco d) fn.id st.clock (decoOutcome p.ctx fn.id (bodyRes p.ctx fn st)).2
+    (decoCommit p.ctx d node (bodyRes p.ctx fn st) (afterBody p.ctx (.deco d) fn args st))
+  have haf := afterBody_fields p.ctx (.deco d) fn args st
+  cases hb : bodyRes p.ctx fn st with
+  | ok x len => exact absurd hb (hno x len)
+  | dry => exact absurd hb (bodyRes_ne_dry p.ctx fn st)
+  | err x o =>
+    rw [hb] at hcf
+    refine ⟨?_, ?_, ?_⟩
+    · rw [hcf.2.2.1]; simp only [decoCommit]; exact haf.2.2.1
+    · rw [hcf.1]; simp only [decoCommit]; exact haf.1
+    · simp only [decoOutcome]; exact ⟨_, rfl⟩
+  | panic x =>
+    rw [hb] at hcf
+    refine ⟨?_, ?_, ?_⟩
+    · rw [hcf.2.2.1]; simp only [decoCommit]; exact haf.2.2.1
+    · rw [hcf.1]; simp only [decoCommit]; exact haf.1
+    · simp only [decoOutcome]; split <;> exact ⟨_, rfl⟩
 end Dig
